@@ -109,15 +109,18 @@ deriving Repr
 
 def allAscii (cs : List Char) : Bool := cs.all (fun c => c.toNat < 128)
 
+/-- An optional sign in front of a numeric literal. -/
+def signSplit : List Char → Bool × List Char
+  | '-' :: r => (true, r)
+  | '+' :: r => (false, r)
+  | r => (false, r)
+
 /-- `int("…")` -/
 def parseIntLit (s : String) : Lit Int :=
   let cs := stripWs s.toList
   if !allAscii s.toList then .unsupported
   else
-    let (neg, body) := match cs with
-      | '-' :: r => (true, r)
-      | '+' :: r => (false, r)
-      | r => (false, r)
+    let (neg, body) := signSplit cs
     match digitsVal body with
     | some n => .ok (if neg then -(n : Int) else n)
     | none => .invalid
@@ -135,10 +138,7 @@ def parseFloatLit (s : String) : Lit FVal :=
   let cs := stripWs s.toList
   if !allAscii s.toList then .unsupported
   else
-    let (neg, body) := match cs with
-      | '-' :: r => (true, r)
-      | '+' :: r => (false, r)
-      | r => (false, r)
+    let (neg, body) := signSplit cs
     let lb := String.ofList (lower body)
     if lb == "inf" || lb == "infinity" then .ok (.inf neg)
     else if lb == "nan" then .ok .nan
